@@ -251,6 +251,9 @@ pub fn c13_case(rng: &mut Rng, _i: u64, st: &mut Stats) -> CaseOutcome {
                     let model_len = MODEL.with(|m| m.borrow().len());
                     if e.entries != model_len {
                         st.count("h3_entry_count_differs_from_model");
+                        if std::env::var("VERIF_DEBUG_H3").is_ok() {
+                            eprintln!("H3DEBUG entries={} model={} case_in_process={}", e.entries, model_len, nth);
+                        }
                     }
                 }
             }
@@ -324,6 +327,97 @@ pub fn c13_case(rng: &mut Rng, _i: u64, st: &mut Stats) -> CaseOutcome {
         }
         built_kinds.push(kind);
     }
+    // Fillers: a long-running process builds many unrelated scanners; eight cheap distinct
+    // configurations per case go through the cache so that it holds hundreds of entries.
+    thread_local! {
+        static FILLER_NO: std::cell::Cell<u64> = const { std::cell::Cell::new(0) };
+    }
+    for _ in 0..8 {
+        let k = FILLER_NO.with(|c| {
+            c.set(c.get() + 1);
+            c.get()
+        });
+        let filler = ScannerCfg {
+            modes: vec![ModeCfg {
+                name: format!("FILLER{}", k),
+                pats: vec![RefPattern { re: Re::Lit('a', LitStyle::Verbatim), tt: (k % 7) as usize, la: None }],
+                trans: vec![],
+            }],
+        };
+        if let Ok(Ok(_)) = sut(|| filler.build_cached()) {
+            MODEL.with(|m| m.borrow_mut().insert(hash_of(&filler)));
+            st.count("filler_configurations_cached");
+        }
+        #[cfg(feature = "hooks")]
+        scnr::verif_hooks::cache_log_take();
+    }
+    // Long-range revisits: configurations built much earlier in this process are built again
+    // (a cache may be bounded; an evicted or recycled entry must not change what build() returns).
+    thread_local! {
+        static ARCHIVE: std::cell::RefCell<Vec<ScannerCfg>> = const { std::cell::RefCell::new(Vec::new()) };
+    }
+    let archived: Vec<ScannerCfg> = ARCHIVE.with(|a| {
+        let a = a.borrow();
+        if a.is_empty() {
+            return vec![];
+        }
+        (0..4).map(|_| a[rng.below(a.len())].clone()).collect()
+    });
+    let distinct_before = MODEL.with(|m| m.borrow().len());
+    for old in &archived {
+        let cached = sut(|| old.build_cached());
+        let uncached = sut(|| old.build_uncached());
+        st.count("long_range_revisits");
+        if distinct_before > 256 {
+            st.count("long_range_revisits_after_more_than_256_distinct_configurations");
+        }
+        let case = || json!({"kind": "c13", "revisited": old, "patterns": old.describe(), "distinct_configurations_built_in_this_process": distinct_before});
+        match (cached, uncached) {
+            (Ok(Ok(c)), Ok(Ok(u))) => {
+                MODEL.with(|m| m.borrow_mut().insert(hash_of(old)));
+                let sc = probe_streams(&c, old.modes.len(), &inputs);
+                let su = probe_streams(&u, old.modes.len(), &inputs);
+                if let (Ok(a), Ok(b)) = (&sc, &su) {
+                    if a != b {
+                        return CaseOutcome::Violated(Violation::new(
+                            format!(
+                                "a configuration built earlier in this process is built again after {} distinct configurations: token streams of build() and build_uncached() differ: {:?} vs {:?}",
+                                distinct_before, a, b
+                            ),
+                            case(),
+                        ));
+                    }
+                }
+                #[cfg(feature = "hooks")]
+                if !cfg!(miri) {
+                    if let Err(e) = crate::lang::scanners_equivalent(&c, &u) {
+                        return CaseOutcome::Violated(Violation::new(
+                            format!("a configuration built earlier in this process is built again after {} distinct configurations: build() differs from build_uncached(): {}", distinct_before, e),
+                            case(),
+                        ));
+                    }
+                }
+            }
+            (Ok(Err(_)), Ok(Err(_))) => {}
+            (Ok(a), Ok(b)) => {
+                return CaseOutcome::Violated(Violation::new(
+                    format!("revisit after {} distinct configurations: build() ok = {}, build_uncached() ok = {}", distinct_before, a.is_ok(), b.is_ok()),
+                    case(),
+                ))
+            }
+            (Err(p), _) | (_, Err(p)) => return CaseOutcome::Violated(Violation::new(format!("panic in a revisit: {}", p), case())),
+        }
+    }
+    #[cfg(feature = "hooks")]
+    scnr::verif_hooks::cache_log_take();
+    ARCHIVE.with(|a| {
+        let mut a = a.borrow_mut();
+        for (c, k) in &family {
+            if !k.starts_with("failing") && a.len() < 5000 {
+                a.push(c.clone());
+            }
+        }
+    });
     st.nontrivial(hash_of(&(&family.iter().map(|f| &f.0).collect::<Vec<_>>(), &seq)));
     st.sample(json!({"family_kinds": family.iter().map(|f| f.1).collect::<Vec<_>>(), "sequence": seq}));
     CaseOutcome::Ok
@@ -333,16 +427,22 @@ pub fn c13(tier: Tier) -> i32 {
     let ctx = Ctx::new("C13", tier, "exploration");
     let n = ctx.scale(640, 40_000);
     let per = if tier == Tier::Quick { 10 } else { 50 };
-    let res = run_cases_subprocess(&ctx, 1, n, per);
+    let mut res = run_cases_subprocess(&ctx, 1, n, per);
+    // stream 2: the same cases in a few long-lived processes (hundreds of distinct configurations
+    // per process, with long-range revisits)
+    let n2 = ctx.scale(960, 16_000);
+    let per2 = if tier == Tier::Quick { 60 } else { 1_000 };
+    res.merge(run_cases_subprocess(&ctx, 2, n2, per2));
     let mut report = Report::new(
-        "build sequences of 5-40 builds over a family of near-identical configurations: a base multi-mode configuration and variants differing in exactly one of token type / pattern order / lookahead presence / lookahead polarity / lookahead pattern / one transition / a mode name / mode order / a pattern text, an unrelated configuration, and failing configurations (syntax error or unsupported construct in the first, a later or a lookahead pattern), drawn with repetition so that every kind is built before and after its twins. Every build() result is compared with build_uncached() of the same configuration: Ok/Err agreement, mode 0, mode names, token streams on probe inputs in every mode, and the compiled automata (hook dump: names, transitions, priority order, language equivalence over all strings). Sequences run single-threaded in worker subprocesses (first sequence of each in a fresh process, later ones in a long-lived one); hook H3 counts the hits and misses actually taken. Distinct by hash of (family, sequence).",
+        "build sequences of 5-40 builds over a family of near-identical configurations: a base multi-mode configuration and variants differing in exactly one of token type / pattern order / lookahead presence / lookahead polarity / lookahead pattern / one transition / a mode name / mode order / a pattern text, an unrelated configuration, and failing configurations (syntax error or unsupported construct in the first, a later or a lookahead pattern), drawn with repetition so that every kind is built before and after its twins. Every build() result is compared with build_uncached() of the same configuration: Ok/Err agreement, mode 0, mode names, token streams on probe inputs in every mode, and the compiled automata (hook dump: names, transitions, priority order, language equivalence over all strings). Sequences run single-threaded in worker subprocesses (stream 1: 10 sequences per process, so many start in a fresh process; stream 2: 60 (quick) or 1000 (thorough) sequences per process, i.e. several hundred distinct configurations in one cache, with configurations built much earlier revisited at random); hook H3 counts the hits and misses actually taken. Distinct by hash of (family, sequence).",
     )
     .floor("builds", 8_000)
 
     .floor("failing_builds", 500)
     .floor("successful_build_after_failing_one", 500)
     .floor("sequences_in_fresh_process", 30)
-    .floor("sequences_in_long_lived_process", 300);
+    .floor("sequences_in_long_lived_process", 300)
+    .floor("long_range_revisits_after_more_than_256_distinct_configurations", 200);
     if cfg!(feature = "hooks") && std::env::var("VERIF_HOOKS").map_or(true, |v| v != "0") {
         report = report.floor("h3_hits", 2_000).floor("h3_misses", 2_000);
     }
